@@ -3,6 +3,11 @@ import Ogorek.Lemmas.CPickleRun
 /-!
   Decoding what CPython's pickler writes (C02): the forms — scalars, the memo PUTs, tuples, and
   the batched APPEND(S) / SETITEM(S) groups that fill a list / dict after it was created empty.
+
+  Every statement carries an invariant of the decoder's memo, indexed by the pickler's own state
+  (`I : σ → DState → Prop`, depending on the memo only: `MemoOnly`).  With `σ = Unit` and the trivial
+  invariant this is the tree-shaped case (nothing is ever fetched from the memo); with the pickler's memo
+  table as index it says what every GET will find.
 -/
 namespace Ogorek
 
@@ -21,94 +26,114 @@ theorem KeepsH.of_frame {st st' : DState} (f : Frame st st') : KeepsH st st' := 
 theorem KeepsH.of_eq {st st' : DState} (e : st'.heap = st.heap) : KeepsH st st' := by
   unfold KeepsH; rw [e]; exact ⟨Nat.le_refl _, AgreeFrom.refl _ _⟩
 
-section
-variable {mc : MCfg} {hook : Hook} {c : ECfg}
+/-- The invariant looks at the memo only. -/
+def MemoOnly {σ : Type} (I : σ → DState → Prop) : Prop := ∀ s st st', st'.memo = st.memo → I s st → I s st'
 
-/-- The fragment pushes `xss.flatten.length` values representing the objects of `xss` (bottom to top),
-    referring only to heap objects it allocated itself, and leaves the old heap alone. -/
-def PushesGN (mc : MCfg) (hook : Hook) (c : ECfg) (bs : Bytes) (xs : List PyObj) : Prop :=
-  RunsP mc hook c bs (fun _ => True) (fun st st' => ∃ rs, st'.stack = rs.reverse ++ st.stack ∧
+theorem MemoOnly.trivial : MemoOnly (fun (_ : Unit) (_ : DState) => True) := fun _ _ _ _ _ => True.intro
+
+section
+variable {mc : MCfg} {hook : Hook} {c : ECfg} {σ : Type} {I : σ → DState → Prop}
+
+/-- The fragment pushes values representing the objects `xs` (bottom to top), referring only to heap objects
+    it allocated itself, leaves the old heap alone, and takes the memo invariant from `s` to `s'`. -/
+def PushesGN (mc : MCfg) (hook : Hook) (c : ECfg) (I : σ → DState → Prop) (bs : Bytes) (xs : List PyObj) (s s' : σ) : Prop :=
+  RunsP mc hook c bs (I s) (fun st st' => I s' st' ∧ ∃ rs, st'.stack = rs.reverse ++ st.stack ∧
     RepGList mc.cfg st.heap.length st'.heap rs xs ∧ KeepsH st st')
 
-def PushesG (mc : MCfg) (hook : Hook) (c : ECfg) (bs : Bytes) (v : PyObj) : Prop :=
-  RunsP mc hook c bs (fun _ => True) (fun st st' => ∃ r, st'.stack = r :: st.stack ∧
+def PushesG (mc : MCfg) (hook : Hook) (c : ECfg) (I : σ → DState → Prop) (bs : Bytes) (v : PyObj) (s s' : σ) : Prop :=
+  RunsP mc hook c bs (I s) (fun st st' => I s' st' ∧ ∃ r, st'.stack = r :: st.stack ∧
     RepG mc.cfg st.heap.length st'.heap r v ∧ KeepsH st st')
 
-theorem PushesG.of_pushes {bs : Bytes} {v : PyObj} {P : GoVal → Prop} (h : Pushes mc hook c bs (fun _ r => P r))
-    (hP : ∀ r n hp, P r → RepG mc.cfg n hp r v) : PushesG mc hook c bs v := by
-  refine RunsP.weaken (RunsP.of_runs h) (fun _ h => h) ?_
-  intro st st' _ _ ⟨f, r, hs, hr⟩
-  exact ⟨r, hs, hP r _ _ hr, KeepsH.of_frame f⟩
+theorem PushesG.of_pushes (hI : MemoOnly I) {bs : Bytes} {v : PyObj} {P : GoVal → Prop} (s : σ)
+    (h : Pushes mc hook c bs (fun _ r => P r))
+    (hP : ∀ r n hp, P r → RepG mc.cfg n hp r v) : PushesG mc hook c I bs v s s := by
+  refine RunsP.weaken (RunsP.of_runs h) (fun _ _ => trivial) ?_
+  intro st st' hj _ ⟨f, r, hs, hr⟩
+  exact ⟨hI s st st' f.memo hj, r, hs, hP r _ _ hr, KeepsH.of_frame f⟩
 
-theorem PushesG.toN {bs : Bytes} {v : PyObj} (h : PushesG mc hook c bs v) : PushesGN mc hook c bs [v] := by
+theorem PushesG.toN {bs : Bytes} {v : PyObj} {s s' : σ} (h : PushesG mc hook c I bs v s s') : PushesGN mc hook c I bs [v] s s' := by
   refine RunsP.weaken h (fun _ h => h) ?_
-  intro st st' _ _ ⟨r, hs, hr, hk⟩
-  exact ⟨[r], by simpa using hs, by simp [RepGList, hr], hk⟩
+  intro st st' _ _ ⟨hj, r, hs, hr, hk⟩
+  exact ⟨hj, [r], by simpa using hs, by simp [RepGList, hr], hk⟩
 
-theorem PushesGN.nil : PushesGN mc hook c [] [] := by
+theorem PushesGN.nil (s : σ) : PushesGN mc hook c I [] [] s s := by
   refine RunsP.weaken RunsP.nil (fun _ h => h) ?_
-  intro st st' _ _ e
+  intro st st' hj _ e
   subst e
-  exact ⟨[], by simp, by simp [RepGList], KeepsH.refl _⟩
+  exact ⟨hj, [], by simp, by simp [RepGList], KeepsH.refl _⟩
 
-theorem PushesGN.append {b1 b2 : Bytes} {xs1 xs2 : List PyObj} (h1 : PushesGN mc hook c b1 xs1) (h2 : PushesGN mc hook c b2 xs2) :
-    PushesGN mc hook c (b1 ++ b2) (xs1 ++ xs2) := by
-  refine RunsP.weaken (RunsP.seq h1 h2 (fun _ _ _ _ _ => trivial)) (fun _ h => h) ?_
-  intro st st2 _ _ ⟨st1, _, ⟨rs1, hs1, hr1, hk1⟩, ⟨rs2, hs2, hr2, hk2⟩⟩
-  refine ⟨rs1 ++ rs2, by simp [hs2, hs1], ?_, hk1.trans hk2⟩
+theorem PushesGN.append {b1 b2 : Bytes} {xs1 xs2 : List PyObj} {s s1 s2 : σ}
+    (h1 : PushesGN mc hook c I b1 xs1 s s1) (h2 : PushesGN mc hook c I b2 xs2 s1 s2) :
+    PushesGN mc hook c I (b1 ++ b2) (xs1 ++ xs2) s s2 := by
+  refine RunsP.weaken (RunsP.seq h1 h2 (fun _ _ _ _ q => q.1)) (fun _ h => h) ?_
+  intro st st2 _ _ ⟨st1, _, ⟨_, rs1, hs1, hr1, hk1⟩, ⟨hj2, rs2, hs2, hr2, hk2⟩⟩
+  refine ⟨hj2, rs1 ++ rs2, by simp [hs2, hs1], ?_, hk1.trans hk2⟩
   refine RepGList.append ?_ ?_
   · exact RepGList.congr mc.cfg (hk2.2.mono (Nat.zero_le _)) (Nat.le_refl _) rs1 xs1 hr1
   · exact RepGList.congr mc.cfg (AgreeFrom.refl _ _) hk1.1 rs2 xs2 hr2
 
-/-- Fragment by fragment. -/
-def FragsGN (mc : MCfg) (hook : Hook) (c : ECfg) : List Bytes → List (List PyObj) → Prop
-  | [], [] => True
-  | f :: fs, xs :: xss => PushesGN mc hook c f xs ∧ FragsGN mc hook c fs xss
-  | _, _ => False
+/-- Fragment by fragment, the invariant index threaded through. -/
+def FragsGN (mc : MCfg) (hook : Hook) (c : ECfg) (I : σ → DState → Prop) : List Bytes → List (List PyObj) → σ → σ → Prop
+  | [], [], s, s' => s = s'
+  | f :: fs, xs :: xss, s, s' => ∃ s1, PushesGN mc hook c I f xs s s1 ∧ FragsGN mc hook c I fs xss s1 s'
+  | _, _, _, _ => False
 
-theorem FragsGN.flatten : {fs : List Bytes} → {xss : List (List PyObj)} → FragsGN mc hook c fs xss →
-    PushesGN mc hook c fs.flatten xss.flatten
-  | [], [], _ => by simpa using PushesGN.nil
-  | [], _ :: _, h => by simp [FragsGN] at h
-  | _ :: _, [], h => by simp [FragsGN] at h
-  | f :: fs, xs :: xss, h => by
+theorem FragsGN.flatten : {fs : List Bytes} → {xss : List (List PyObj)} → {s s' : σ} → FragsGN mc hook c I fs xss s s' →
+    PushesGN mc hook c I fs.flatten xss.flatten s s'
+  | [], [], s, _, h => by
+    simp only [FragsGN] at h; subst h
+    simpa using PushesGN.nil s
+  | [], _ :: _, _, _, h => by simp [FragsGN] at h
+  | _ :: _, [], _, _, h => by simp [FragsGN] at h
+  | f :: fs, xs :: xss, _, _, h => by
     simp only [FragsGN] at h
-    simpa using PushesGN.append h.1 (FragsGN.flatten h.2)
+    obtain ⟨s1, h1, h2⟩ := h
+    simpa using PushesGN.append h1 (FragsGN.flatten h2)
 
-theorem FragsGN.take : (k : Nat) → {fs : List Bytes} → {xss : List (List PyObj)} → FragsGN mc hook c fs xss →
-    FragsGN mc hook c (fs.take k) (xss.take k)
-  | 0, _, _, _ => by simp [FragsGN]
-  | _ + 1, [], [], _ => by simp [FragsGN]
-  | _ + 1, [], _ :: _, h => by simp [FragsGN] at h
-  | _ + 1, _ :: _, [], h => by simp [FragsGN] at h
-  | k + 1, f :: fs, xs :: xss, h => by
+/-- Split after `k` fragments. -/
+theorem FragsGN.split : (k : Nat) → {fs : List Bytes} → {xss : List (List PyObj)} → {s s' : σ} → FragsGN mc hook c I fs xss s s' →
+    ∃ sm, FragsGN mc hook c I (fs.take k) (xss.take k) s sm ∧ FragsGN mc hook c I (fs.drop k) (xss.drop k) sm s'
+  | 0, _, _, s, _, h => ⟨s, by simp [FragsGN], by simpa using h⟩
+  | _ + 1, [], [], s, _, h => ⟨s, by simp [FragsGN], by simpa using h⟩
+  | _ + 1, [], _ :: _, _, _, h => by simp [FragsGN] at h
+  | _ + 1, _ :: _, [], _, _, h => by simp [FragsGN] at h
+  | k + 1, f :: fs, xs :: xss, _, _, h => by
     simp only [FragsGN] at h
-    simp only [List.take_succ_cons, FragsGN]
-    exact ⟨h.1, FragsGN.take k h.2⟩
+    obtain ⟨s1, h1, h2⟩ := h
+    obtain ⟨sm, a, b⟩ := FragsGN.split k h2
+    exact ⟨sm, by simp only [List.take_succ_cons, FragsGN]; exact ⟨s1, h1, a⟩, by simpa using b⟩
 
-theorem FragsGN.drop : (k : Nat) → {fs : List Bytes} → {xss : List (List PyObj)} → FragsGN mc hook c fs xss →
-    FragsGN mc hook c (fs.drop k) (xss.drop k)
-  | 0, _, _, h => by simpa using h
-  | _ + 1, [], [], _ => by simp [FragsGN]
-  | _ + 1, [], _ :: _, h => by simp [FragsGN] at h
-  | _ + 1, _ :: _, [], h => by simp [FragsGN] at h
-  | k + 1, f :: fs, xs :: xss, h => by
+theorem FragsGN.length : {fs : List Bytes} → {xss : List (List PyObj)} → {s s' : σ} → FragsGN mc hook c I fs xss s s' →
+    fs.length = xss.length
+  | [], [], _, _, _ => rfl
+  | [], _ :: _, _, _, h => by simp [FragsGN] at h
+  | _ :: _, [], _, _, h => by simp [FragsGN] at h
+  | _ :: _, _ :: _, _, _, h => by
     simp only [FragsGN] at h
-    simp only [List.drop_succ_cons]
-    exact FragsGN.drop k h.2
+    obtain ⟨_, _, h2⟩ := h
+    simp [FragsGN.length h2]
 
-theorem FragsGN.length : {fs : List Bytes} → {xss : List (List PyObj)} → FragsGN mc hook c fs xss → fs.length = xss.length
-  | [], [], _ => rfl
-  | [], _ :: _, h => by simp [FragsGN] at h
-  | _ :: _, [], h => by simp [FragsGN] at h
-  | _ :: _, _ :: _, h => by
-    simp only [FragsGN] at h
-    simp [FragsGN.length h.2]
+theorem FragsGN.append_inv : {f1 f2 : List Bytes} → {x1 x2 : List (List PyObj)} → {s s' : σ} → f1.length = x1.length →
+    FragsGN mc hook c I (f1 ++ f2) (x1 ++ x2) s s' → ∃ sm, FragsGN mc hook c I f1 x1 s sm ∧ FragsGN mc hook c I f2 x2 sm s'
+  | [], _, [], _, s, _, _, h => ⟨s, by simp [FragsGN], by simpa using h⟩
+  | [], _, _ :: _, _, _, _, hl, _ => by simp at hl
+  | _ :: _, _, [], _, _, _, hl, _ => by simp at hl
+  | f :: f1, f2, x :: x1, x2, _, _, hl, h => by
+    simp only [List.cons_append, FragsGN] at h
+    obtain ⟨s1, h1, h2⟩ := h
+    obtain ⟨sm, a, b⟩ := FragsGN.append_inv (by simpa using hl) h2
+    exact ⟨sm, by simp only [FragsGN]; exact ⟨s1, h1, a⟩, b⟩
 
 /-! ### the memo -/
 
 /-- The top of the stack is a value (not the marker). -/
 def TopUser (st : DState) : Prop := ∃ v s, st.stack = v :: s ∧ isMark v = false
+
+/-- What a `memo_put` between the pickler states `s` and `s'` has to do: succeed on any value, touch only the memo,
+    and take the invariant along. -/
+def PutOK (mc : MCfg) (hook : Hook) (c : ECfg) (I : σ → DState → Prop) (bs : Bytes) (v : GoVal → Prop) (s s' : σ) : Prop :=
+  RunsP mc hook c bs (fun st => I s st ∧ ∃ r rest, st.stack = r :: rest ∧ isMark r = false ∧ v r)
+    (fun st st' => I s' st' ∧ st'.stack = st.stack ∧ st'.heap = st.heap)
 
 theorem exec_put (pos : Nat) (st : DState) (key : Bytes) {v : GoVal} {s : List GoVal} (hs : st.stack = v :: s) (hm : isMark v = false) :
     exec mc hook (.put key) pos st = .ok (memoPut st key v) := by
@@ -143,14 +168,24 @@ theorem runs_put (p n : Nat) :
       · intro pos st _ ⟨v, s, hs, hm⟩
         exact ⟨_, exec_put pos st _ hs hm, rfl, rfl, rfl⟩
 
+/-- With the trivial invariant every PUT is fine. -/
+theorem PutOK.trivial (p n : Nat) (v : GoVal → Prop) :
+    PutOK mc hook c (fun (_ : Unit) (_ : DState) => True) (cpPut p n) v () () := by
+  refine RunsP.weaken (runs_put p n) ?_ ?_
+  · intro st ⟨_, r, rest, hs, hm, _⟩
+    exact ⟨r, rest, hs, hm⟩
+  · intro st st' _ _ q
+    exact ⟨True.intro, q⟩
+
 /-- A pushed object followed by its `memo_put`. -/
-theorem PushesG.put {bs : Bytes} {v : PyObj} (h : PushesG mc hook c bs v) (p n : Nat) :
-    PushesG mc hook c (bs ++ cpPut p n) v := by
-  refine RunsP.weaken (RunsP.seq h (runs_put p n) ?_) (fun _ h => h) ?_
-  · intro st st1 _ _ ⟨r, hs, hr, _⟩
-    exact ⟨r, st.stack, hs, hr.not_mark⟩
-  · intro st st2 _ _ ⟨st1, _, ⟨r, hs, hr, hk⟩, hs2, hh2⟩
-    refine ⟨r, by rw [hs2, hs], by rw [hh2]; exact hr, hk.trans (KeepsH.of_eq hh2)⟩
+theorem PushesG.put {bs pb : Bytes} {v : PyObj} {s s1 s2 : σ} {vp : GoVal → Prop} (h : PushesG mc hook c I bs v s s1)
+    (hput : PutOK mc hook c I pb vp s1 s2) (hv : ∀ n hp r, RepG mc.cfg n hp r v → vp r) :
+    PushesG mc hook c I (bs ++ pb) v s s2 := by
+  refine RunsP.weaken (RunsP.seq h hput ?_) (fun _ h => h) ?_
+  · intro st st1 _ _ ⟨hj, r, hs, hr, _⟩
+    exact ⟨hj, r, st.stack, hs, hr.not_mark, hv _ _ _ hr⟩
+  · intro st st2 _ _ ⟨st1, _, ⟨_, r, hs, hr, hk⟩, hj2, hs2, hh2⟩
+    refine ⟨hj2, r, by rw [hs2, hs], by rw [hh2]; exact hr, hk.trans (KeepsH.of_eq hh2)⟩
 
 /-! ### MARK -/
 
